@@ -1222,10 +1222,12 @@ class ktime(Expression):
     @contextmanager
     def calculate(self, dst, long, force=False):
         with self.ebpf.get_free_register(dst) as dst:
+            saved = self.ebpf.owners & (set(range(1, 6)) - {dst})
             with self.ebpf.save_registers([i for i in range(6) if i != dst]):
                 self.ebpf.call(FuncId.ktime_get_ns)
                 if dst != 0:
                     self.ebpf.r[dst] = self.ebpf.r0
+            self.ebpf.owners |= saved  # restored by save_registers
             yield dst, True
 
 
@@ -1237,10 +1239,12 @@ class prandom(Expression):
     @contextmanager
     def calculate(self, dst, long, force=False):
         with self.ebpf.get_free_register(dst) as dst:
+            saved = self.ebpf.owners & (set(range(1, 6)) - {dst})
             with self.ebpf.save_registers([i for i in range(6) if i != dst]):
                 self.ebpf.call(FuncId.get_prandom_u32)
                 if dst != 0:
                     self.ebpf.r[dst] = self.ebpf.r0
+            self.ebpf.owners |= saved  # restored by save_registers
             yield dst, True
 
 
